@@ -104,7 +104,8 @@ def make_driver(cfg):
         if cfg.kind == "functor":
             class Pool(vmp.Monitored, M.FunctorPool):
                 pass
-            pool = Pool([W() for _ in range(cfg.workers)], work_queue_maxsize=cfg.wq, results_queue_maxsize=cfg.rq)
+            pool = Pool([W(cfg.quota if cfg.quota is not None else math.inf) for _ in range(cfg.workers)],
+                        work_queue_maxsize=cfg.wq, results_queue_maxsize=cfg.rq)
         else:
             class Pool(vmp.Monitored, M.FactoryFunctorPool):
                 pass
@@ -112,11 +113,15 @@ def make_driver(cfg):
         out["pool"] = pool
         with pool:
             out["entered"] = True
-            if cfg.until_all_ready:
+            def wait_ready():
                 procs = list(object.__getattribute__(pool, "procs"))
                 pool.until_all_ready()
                 log.add(None, "ready-returned", [p.wid for p in procs])
+            if cfg.until_all_ready:
+                wait_ready()
             for k, (mode, ikind, n, cs) in enumerate(cfg.calls):
+                if cfg.until_all_ready == "each" and k > 0:
+                    wait_ready()
                 data = call_input(k, n)
                 rec = {"mode": mode, "data": data, "cs": cs, "yielded": [], "finished": False, "leftover": None}
                 out["calls"].append(rec)
@@ -126,6 +131,8 @@ def make_driver(cfg):
                     rec["yielded"].append(v)
                 rec["finished"] = True
                 rec["leftover"] = payload_items(s)
+            if cfg.until_all_ready == "each":
+                wait_ready()
         out["exited"] = True
         return out
     return driver
@@ -231,9 +238,9 @@ def judge(cfg, r):
                 sig = {"family": fam, "kind": "wrong-output", "class": cls, "call": k, "mode": rec["mode"]}
                 what = "%s: call %d %s(%r, cs=%d) yielded %r, expected %r" % (
                     cfg.name, k, rec["mode"], rec["data"], rec["cs"], rec["yielded"], [f(x) for x in rec["data"]])
-                v.append(("C01" if len(calls) == 1 else "C03", sig, what, {}))
-                if len(calls) > 1 and k == 0:
-                    v.append(("C01", sig, what, {}))
+                v.append(("C01", sig, what, {}))       # the statement holds for every fully consumed call
+                if len(calls) > 1:
+                    v.append(("C03", sig, what, {}))
             if rec["finished"] and rec["leftover"]:
                 sig = {"family": fam, "kind": "leftover", "call": k}
                 what = "%s: after call %d result chunks are still queued: %r" % (cfg.name, k, rec["leftover"])
